@@ -32,7 +32,7 @@ ASSUMPTIONS = [
 ]
 SETTINGS: Dict[str, Dict[str, Any]] = {
     "quick": {"cases": 160, "budget_s": 60, "minimums": {"links_checked": 8000, "hidden_plain_cells": 60, "summary_links": 400, "nontrivial": 30}},
-    "thorough": {"cases": 1200, "budget_s": 420, "minimums": {"links_checked": 100000, "hidden_plain_cells": 600, "summary_links": 5000, "nontrivial": 300}},
+    "thorough": {"cases": 3600, "budget_s": 420, "minimums": {"links_checked": 80000, "hidden_plain_cells": 600, "summary_links": 5000, "nontrivial": 300}},
 }
 
 
